@@ -323,6 +323,7 @@ def rule_phase_pivot(ctx: Ctx) -> None:
 def run(ctx: Ctx) -> None:
     from ..rules import memo as _memo
     _memo.rule_memo_sound(ctx, ['graphiq/circuit/ops.py', 'graphiq/backends/density_matrix/functions.py'])
+    _memo.rule_falsy_zero(ctx, ['graphiq/circuit/ops.py', 'graphiq/backends/density_matrix/functions.py'])
     rule_phase_pivot(ctx)
     rule_clifford24(ctx)
     rule_order_wrapper(ctx)
